@@ -811,7 +811,7 @@ class Taint:
     def _sep_value(self, b, bi, site_bb):
         return True
 
-    def guarded_exact(self, b, site_bb, op):
+    def guarded_exact(self, b, site_bb, op, arith=True, upper=False):
         """a comparison of the very same value (same expression, or the value plus something) dominates site_bb, or it
         was looked up with get() / tested by a checked_* / contains call before"""
         cfg = self.cfg(b)
@@ -828,6 +828,8 @@ class Taint:
             if t["k"] == "switch":
                 for st in bb["stmts"]:
                     if st[0] == "assign" and st[2][0] == "binop" and st[2][1] in ("Lt", "Le", "Gt", "Ge", "Eq", "Ne"):
+                        if upper and 0 in (F.const_int(st[2][2]), F.const_int(st[2][3])):
+                            continue        # a sign / zero test does not limit a size from above
                         if (self._covers(self.expr_key(b, st[2][2]), key) or self._covers(self.expr_key(b, st[2][3]), key)) and self.separates(b, bi, site_bb):
                             return True
             # a validating helper of the crate that was handed the struct the value is read from (`predictor_stride(params)?`) and compares
@@ -861,7 +863,10 @@ class Taint:
                             flds = [e[2] for e in pl[1:] if e[0] == "field"]
                             if pl[0] == abase and flds and flds[-1] in self._compared_fields(cb, k2) and self.separates(b, bi, site_bb):
                                 return True
-            if t["k"] == "call" and bi != site_bb and last_seg(F.callee_name(t)) in ("get", "get_mut", "contains", "checked_add", "checked_sub", "checked_mul", "try_from", "try_into", "read", "contains_key"):
+            # (surviving checked arithmetic says that the NUMBER is representable - enough for an overflow, nothing about the length of a
+            # collection the number is then used to index: arith=False for index and range bounds)
+            if t["k"] == "call" and bi != site_bb and last_seg(F.callee_name(t)) in (("get", "get_mut", "contains", "read", "contains_key") +
+                                                                                      (("checked_add", "checked_sub", "checked_mul", "try_from", "try_into") if arith else ())):
                 for a in t["args"]:
                     if self._covers(self.expr_key(b, a), key) and self.separates(b, bi, site_bb):
                         return True
@@ -990,9 +995,10 @@ class Taint:
         memo[key] = res
         return res
 
-    def guarded(self, b, site_bb, l):
+    def guarded(self, b, site_bb, l, upper=False):
         """a comparison involving l (or something l was computed from / that was computed from the same
-        tainted ancestors) dominates site_bb"""
+        tainted ancestors) dominates site_bb.  upper=True: the value is used as an upper limit (the end of a range, a size) - a test against
+        the constant 0 (a sign test) says nothing about how large it is and does not count"""
         cfg = self.cfg(b)
         anc = self.ancestors(b, l)
         tainted_anc = {x for x in anc if (self.local(b, x).taint if isinstance(x, int) else self.place(b, json.loads(x[1])).taint)} or anc
@@ -1003,6 +1009,8 @@ class Taint:
             cmp_locals = set()
             for s in bb["stmts"]:
                 if s[0] == "assign" and s[2][0] == "binop" and s[2][1] in ("Lt", "Le", "Gt", "Ge", "Eq", "Ne"):
+                    if upper and 0 in (F.const_int(s[2][2]), F.const_int(s[2][3])):
+                        continue
                     for o in (s[2][2], s[2][3]):
                         if o[0] in ("copy", "move"):
                             cmp_locals.add(o[1][0])
